@@ -5,6 +5,7 @@ import (
 	"go/token"
 	"go/types"
 	"sort"
+	"sync"
 	"strings"
 
 	"golang.org/x/tools/go/packages"
@@ -152,7 +153,11 @@ func (p *Program) buildTagTable() {
 	}
 }
 
+var tagMu sync.Mutex
+
 func (p *Program) tagOf(t types.Type) int {
+	tagMu.Lock()
+	defer tagMu.Unlock()
 	k := types.TypeString(t, nil)
 	if n, ok := p.tags[k]; ok {
 		return n
